@@ -159,6 +159,61 @@ def send_after_disconnect(k_cut, nsegs):
     return fail
 
 
+def pending_reentry(mode):
+    """Several complete messages have arrived on a socket port.  The consumer takes the first one from iter_pending() and
+    then (mode 'poll') calls poll() from inside the loop, or (mode 'break') leaves the loop and comes back later, or (mode
+    'multi') takes one through multi_receive and then iterates: every message that arrived is handed out once, in order."""
+    import time
+    import mido
+    from mido.ports import multi_receive
+    from mido.sockets import SocketPort
+    a, b = socket.socketpair()
+    port = SocketPort('pair', 1, conn=a)
+    sent = [mido.Message('note_on', note=i + 1, velocity=i + 1) for i in range(6)]
+    got = []
+    try:
+        b.sendall(b''.join(m.bin() for m in sent))
+        time.sleep(0.05)
+        if mode == 'poll':
+            for m in port.iter_pending():
+                got.append(m)
+                x = port.poll()
+                if x is not None:
+                    got.append(x)
+        elif mode == 'break':
+            for m in port.iter_pending():
+                got.append(m)
+                break
+            got.extend(port.iter_pending())
+        else:
+            for m in multi_receive([port], block=False):
+                got.append(m)
+                break
+            while True:
+                x = port.poll()
+                if x is None:
+                    break
+                got.append(x)
+        b.close()
+        with portsim.patched_sleep(limit=200):
+            for m in port:
+                got.append(m)
+    except portsim.Hang:
+        return f'iteration did not end ({mode})'
+    except Exception as e:
+        return f'{mode}: raised {type(e).__name__}: {e}'
+    finally:
+        for x in (port, a, b):
+            try:
+                x.close()
+            except Exception:
+                pass
+    if got != sent:
+        return (f'six complete messages arrived; the consumer took one from iter_pending() and then used the port again ({mode}): '
+                f'it was handed notes {[m.note for m in got]}, arrived {[m.note for m in sent]}')
+    return None
+
+
 def burst_msgs(n, base):
     """messages whose encodings total exactly n bytes: note_ons and (n % 3) clock bytes"""
     import mido
@@ -537,6 +592,12 @@ def run(ck):
         f = send_after_disconnect(k_cut, nsegs)
         if f:
             ck.oracle_fail({'send_after_disconnect': [k_cut, nsegs]}, f)
+    for mode in ('poll', 'break', 'multi'):
+        ck.evaluations += 1
+        ck.count('pending_reentry')
+        f = pending_reentry(mode)
+        if f:
+            ck.oracle_fail({'pending_reentry': mode}, f)
     for leave in ([2, 6] if ck.tier == 'quick' else [1, 2, 3, 6, 20, 100]):
         ck.evaluations += 1
         ck.count('server_client_leaves')
@@ -558,6 +619,8 @@ def run(ck):
 
 
 def oracle(case):
+    if 'pending_reentry' in case:
+        return pending_reentry(case['pending_reentry'])
     if 'send_after_disconnect' in case:
         return send_after_disconnect(*case['send_after_disconnect'])
     if 'close_visible' in case:
